@@ -4,9 +4,7 @@ import (
 	"sort"
 
 	"github.com/openacid/low/bitmap"
-	"github.com/openacid/low/bitstr"
 	"github.com/openacid/low/bitword"
-	"github.com/openacid/low/bmtree"
 	"github.com/openacid/low/sigbits"
 
 	"verifsim/engine"
@@ -71,9 +69,10 @@ type wKeys struct {
 }
 
 type wMask struct {
-	mask  int32
-	paths []uint64
-	bm    []uint64 // a bitmap over the stored nodes
+	mask    int32
+	paths   []uint64
+	bm      []uint64 // a bitmap over the stored nodes
+	bmShort []uint64 // the same, cut short
 }
 
 type wJoin struct {
@@ -190,6 +189,125 @@ func buildKeys(s KeySpec) []string {
 	return keys
 }
 
+// ---- harness-own construction of the derived objects ------------------------
+//
+// The world is built WITHOUT calling the functions under test: a library call
+// made here would run on the main goroutine before any task exists and would
+// "warm" whatever that function initialises lazily on first use, hiding a
+// first-use race in a cold process. (sigbits.New is the one exception: a
+// SigBits has unexported fields and cannot be built otherwise.) These are
+// direct transcriptions of the documented meaning of each object.
+
+func ownIndexRank64(words []uint64, trailing bool) []int32 {
+	out := make([]int32, 0, len(words)+1)
+	n := int32(0)
+	for _, w := range words {
+		out = append(out, n)
+		n += int32(popcount(w))
+	}
+	if trailing {
+		out = append(out, n)
+	}
+	return out
+}
+
+func ownIndexRank128(words []uint64) []int32 {
+	out := make([]int32, 0, len(words)/2+1)
+	n := int32(0)
+	for i := 0; i < len(words); i += 2 {
+		out = append(out, n)
+		n += int32(popcount(words[i]))
+		if i+1 < len(words) {
+			n += int32(popcount(words[i+1]))
+		}
+	}
+	if len(words)%2 == 0 {
+		out = append(out, n)
+	}
+	return out
+}
+
+func popcount(w uint64) int {
+	c := 0
+	for w != 0 {
+		w &= w - 1
+		c++
+	}
+	return c
+}
+
+func ownIndexSelect32(pos []int32) []int32 {
+	out := []int32{}
+	for i := 0; i < len(pos); i += 32 {
+		out = append(out, pos[i])
+	}
+	return out
+}
+
+// ownBitStr encodes the first `to` bits of s: the bytes that hold them, the last
+// one masked, followed by the mask byte; an empty aligned range is {0xff}.
+func ownBitStr(s string, to int32) []byte {
+	if to == 0 {
+		return []byte{0xff}
+	}
+	nb := int(to+7) / 8
+	out := make([]byte, nb+1)
+	copy(out, s[:nb])
+	mask := byte(0xff)
+	if r := uint(to & 7); r != 0 {
+		mask = ^byte(0xff >> r)
+	}
+	out[nb-1] &= mask
+	out[nb] = mask
+	return out
+}
+
+// ownAllPaths lists the stored-level paths of a level mask in pre-order:
+// path word = (prefix bits left-aligned in `height` bits) << 32 | (length
+// 1-bits left-aligned in `height` bits).
+func ownAllPaths(mask int32) []uint64 {
+	h := uint(0)
+	for (mask >> (h + 1)) != 0 {
+		h++
+	}
+	var out []uint64
+	var rec func(bits uint64, l uint)
+	rec = func(bits uint64, l uint) {
+		if mask>>l&1 == 1 {
+			lm := (uint64(1)<<l - 1) << (h - l)
+			out = append(out, (bits<<(h-l))<<32|lm)
+		}
+		if l < h {
+			rec(bits<<1, l+1)
+			rec(bits<<1|1, l+1)
+		}
+	}
+	rec(0, 0)
+	return out
+}
+
+func ownJoin(subs []uint64, width int) []uint64 {
+	out := make([]uint64, (len(subs)*width+63)/64)
+	for i, v := range subs {
+		if width < 64 {
+			v &= uint64(1)<<uint(width) - 1
+		}
+		j := i * width
+		out[j/64] |= v << uint(j%64)
+	}
+	return out
+}
+
+func ownBitWords(s string, width int) []byte {
+	out := make([]byte, 0, len(s)*8/width)
+	for i := 0; i < len(s); i++ {
+		for sh := 8 - width; sh >= 0; sh -= width {
+			out = append(out, s[i]>>uint(sh)&(1<<uint(width)-1))
+		}
+	}
+	return out
+}
+
 // buildWorld constructs the shared world in the arena and seals it.
 func buildWorld(spec WorldSpec) *world {
 	a := newArena()
@@ -197,12 +315,6 @@ func buildWorld(spec WorldSpec) *world {
 	for _, bs := range spec.Bitmaps {
 		words := a.u64s(buildBitmapWords(bs))
 		b := &wBitmap{words: words}
-		b.r64 = a.i32s(bitmap.IndexRank64(words))
-		b.r64t = a.i32s(bitmap.IndexRank64(words, true))
-		b.r128 = a.i32s(bitmap.IndexRank128(words))
-		b.s32 = a.i32s(bitmap.IndexSelect32(words))
-		s, r := bitmap.IndexSelect32R64(words)
-		b.s32r, b.s32rRank = a.i32s(s), a.i32s(r)
 		var pos []int32
 		for i, wd := range words {
 			for j := 0; j < 64; j++ {
@@ -213,6 +325,11 @@ func buildWorld(spec WorldSpec) *world {
 		}
 		b.ones = int32(len(pos))
 		b.pos = a.i32s(pos)
+		b.r64 = a.i32s(ownIndexRank64(words, false))
+		b.r64t = a.i32s(ownIndexRank64(words, true))
+		b.r128 = a.i32s(ownIndexRank128(words))
+		b.s32 = a.i32s(ownIndexSelect32(pos))
+		b.s32r, b.s32rRank = a.i32s(ownIndexSelect32(pos)), a.i32s(ownIndexRank64(words, true))
 		w.bitmaps = append(w.bitmaps, b)
 	}
 	for _, ks := range spec.Keys {
@@ -226,14 +343,14 @@ func buildWorld(spec WorldSpec) *world {
 			if to > 0 && engine.H(ks.Seed, 9, uint64(len(k.bs)))%2 == 0 {
 				to -= int32(engine.H(ks.Seed, 10, uint64(len(k.bs))) % 8)
 			}
-			k.bs = append(k.bs, a.bytes(bitstr.New(s, 0, to)))
+			k.bs = append(k.bs, a.bytes(ownBitStr(s, to)))
 		}
 		for _, s := range k.keys {
 			k.kb = append(k.kb, a.bytes([]byte(s)))
 		}
 		for _, width := range []int{1, 2, 4, 8} {
 			for _, s := range k.keys {
-				k.words[width] = append(k.words[width], a.bytes(bitword.BitWord[width].FromStr(s)))
+				k.words[width] = append(k.words[width], a.bytes(ownBitWords(s, width)))
 			}
 		}
 		k.sb = sigbits.New(k.keys)
@@ -241,12 +358,15 @@ func buildWorld(spec WorldSpec) *world {
 	}
 	for _, m := range spec.Masks {
 		wm := &wMask{mask: m}
-		wm.paths = a.u64s(bmtree.AllPaths(m, 0, 1<<63))
+		wm.paths = a.u64s(ownAllPaths(m))
 		nb := make([]uint64, (int(m)+63)/64+1)
 		for i := range nb {
 			nb[i] = engine.H(uint64(m), uint64(i))
 		}
 		wm.bm = a.u64s(nb)
+		// a bitmap SHORTER than the tree (supported: missing words read as 0),
+		// with spare capacity behind it like every arena slice
+		wm.bmShort = a.u64s(nb[:len(nb)/2])
 		w.masks = append(w.masks, wm)
 	}
 	for _, js := range spec.Joins {
@@ -255,7 +375,7 @@ func buildWorld(spec WorldSpec) *world {
 			subs[i] = engine.H(js.Seed, uint64(i))
 		}
 		j := &wJoin{width: int32(js.Width), n: int32(js.N), subs: a.u64s(subs)}
-		j.words = a.u64s(bitmap.Join(j.subs, j.width))
+		j.words = a.u64s(ownJoin(j.subs, js.Width))
 		w.joins = append(w.joins, j)
 	}
 	a.seal()
@@ -265,16 +385,21 @@ func buildWorld(spec WorldSpec) *world {
 // snapshot hashes every shared input (C19.snapshot).
 func (w *world) snapshot() uint64 {
 	h := uint64(0)
+	// every slice is hashed over its FULL CAPACITY (spare sentinel included)
 	hw := func(x []uint64) {
-		for _, v := range x {
+		for _, v := range x[:cap(x)] {
 			h = engine.HashU64(h, v)
 		}
 		h = engine.HashU64(h, uint64(len(x)))
 	}
 	hi := func(x []int32) {
-		for _, v := range x {
+		for _, v := range x[:cap(x)] {
 			h = engine.HashU64(h, uint64(uint32(v)))
 		}
+		h = engine.HashU64(h, uint64(len(x)))
+	}
+	hb := func(x []byte) {
+		h = engine.HashBytes(h, x[:cap(x)])
 		h = engine.HashU64(h, uint64(len(x)))
 	}
 	for _, b := range w.bitmaps {
@@ -293,22 +418,21 @@ func (w *world) snapshot() uint64 {
 			h = engine.HashU64(h, uint64(len(s)))
 		}
 		for _, b := range k.bs {
-			h = engine.HashBytes(h, b)
-			h = engine.HashU64(h, uint64(len(b)))
+			hb(b)
 		}
 		for _, b := range k.kb {
-			h = engine.HashBytes(h, b)
+			hb(b)
 		}
 		for _, ws := range k.words {
 			for _, b := range ws {
-				h = engine.HashBytes(h, b)
-				h = engine.HashU64(h, uint64(len(b)))
+				hb(b)
 			}
 		}
 	}
 	for _, m := range w.masks {
 		hw(m.paths)
 		hw(m.bm)
+		hw(m.bmShort)
 	}
 	for _, j := range w.joins {
 		hw(j.words)
